@@ -1,6 +1,7 @@
 import CollectionsC.Driver.Cmd
 import CollectionsC.Spec.DequeSpec
 import CollectionsC.Model.Deque
+import CollectionsC.Proofs.DequeBulk
 /-! Line-protocol driver for the deque: four object slots (`o=`, builders `to=`), one iterator, one zip
 iterator.  Prints exactly what `harness/shim_deque.c` prints. -/
 -- container: deque
@@ -127,6 +128,12 @@ def stepObj (s : Sess) (c : Cmd) (m : Mem) (k : Nat) (d : Deque) (l : List Nat) 
     let s' := forgetIters (setS (setM { s with mem := d.removeAll.destroy f.2 } k none) k none) k
     fin s' s!"st=- cb={fmtList l}" s!"st=- cb={fmtList f.1}"
   | "add" | "add_last" => addLike (d.addLast a0 m) (.ok, Spec.DequeSpec.addLast l a0)
+  | "fill" =>
+    -- `n` × add_last of fixed values, stopping at the first refusal (closed forms: Proofs/DequeBulk.lean); the ideal
+    -- list takes the values that went in
+    let vals := Deque.fillVals (c.nat "n" 0) (c.nat "seed" 1)
+    let r := Deque.fillRun false (vals.length + 1) d m vals
+    fin (upd r.2.1 (l ++ vals.take (vals.length - r.2.2.2)) r.2.2.1) (fmtStat (if refused then .errAlloc else .ok)) (fmtStat r.1)
   | "add_first" => addLike (d.addFirst a0 m) (.ok, Spec.DequeSpec.addFirst l a0)
   | "add_at" => addLike (d.addAt a0 a1 m) (Spec.DequeSpec.addAt l a0 a1)
   | "replace_at" => outLike (d.replaceAt a0 a1 m) (Spec.DequeSpec.replaceAt l a0 a1)
@@ -215,6 +222,15 @@ def stepIter (s : Sess) (c : Cmd) (m : Mem) : Sess × String × String :=
         fin s' (hdOut sp.1 sp.2.1 noout) (hdOut r.1 r.2.1 noout)
       | "it_index" =>
         fin { s with mem := m } s!"st=- out={Deque.decIdx cur.pos}" s!"st=- out={Deque.iterIndex it}"
+      | "it_sweep" =>
+        -- `n` × iter_next, stopping at the end: count and checksum of the values yielded
+        let kk := c.nat "n" 1
+        let r := Deque.iterSweepRun d kk it m
+        let sv := (l.drop cur.pos).take kk
+        let sst : Stat := if kk ≤ l.length - cur.pos then .ok else .iterEnd
+        let cur' : Cur := if sv.isEmpty then cur else { pos := cur.pos + sv.length, removed := false }
+        fin { s with mem := r.2.2.2, it := some (k, r.2.2.1), sit := some (k, cur') }
+          s!"{fmtStat sst} out={sv.length} sum={Deque.valSum sv}" s!"{fmtStat r.2.1} out={r.1.length} sum={Deque.valSum r.1}"
       | _ => fin { s with mem := m } "st=- badop" "st=- badop"
     | _, _ => early s m "nosession"
   | _, _ => early s m "nosession"
